@@ -717,6 +717,11 @@ func (r *scenarioRun) applyEdit(e edit) bool {
 		}
 		switch e.Op {
 		case "drift":
+			// every second drift is a metadata-only one (it moves resourceVersion, not generation)
+			if len(e.Value)%2 == 0 || e.Kid%2 == 1 {
+				_, err := s.ExtMutate(ri.GVR(), sim.NS(o), sim.Name(o), func(o sim.Obj) { sim.SetNested(o, "tampered-"+e.Value, "metadata", "annotations", "hook-note") })
+				return err == nil
+			}
 			_, err := s.ExtMutate(ri.GVR(), sim.NS(o), sim.Name(o), func(o sim.Obj) { sim.SetNested(o, "drift-"+e.Value, field, "value") })
 			return err == nil
 		case "foreign-field":
